@@ -294,8 +294,10 @@ def _job(args):
         return [(o.prop, o.fn, o.cls, dict(o.detail, routine=name, n=n), o.events) for o in recs]
     if name.startswith("c14:"):
         return _c14_job(name[4:], n, seed)
-    if name.endswith(("@we", "@rb")):
+    if name.endswith(("@we", "@rb", "@rt")):
         jn, fn, a, kw = build(name[:-3], n, rng)
+        if name.endswith("@rt") and not (a and not isinstance(a[0], np.ndarray) and hasattr(a[0], "tol")):
+            return []
     elif name.endswith("@vb"):
         # the same call with verbose output switched on (solver attribute or keyword): printing is supposed to be inert
         jn, fn, a, kw = build(name[:-3], n, rng)
@@ -381,6 +383,25 @@ def _job(args):
             import copy as _copy
             first_args = [x.copy() if isinstance(x, np.ndarray) else (_copy.deepcopy(x) if hasattr(x, "__dict__") and not callable(x) else x) for x in a_call]
             _scr(fn(*first_args, **kw_call))
+            # ... and on what the library's small public helpers handed out (identities, reductions of the same matrix)
+            L_ = lib()
+            for k_ in sorted({1, 2, 3, n, max(n - 1, 1), n + 1, n + 2, n + 3}):
+                _scr(L_.utils.quat_eye(k_))
+            for x in a_call:
+                if isinstance(x, np.ndarray) and x.dtype == np.quaternion and x.ndim == 2 and x.shape[0] == x.shape[1] and x.shape[0] <= 13:
+                    try:
+                        _scr(L_.hess.hessenbergize(x.copy()))
+                    except Exception:
+                        pass
+            np.random.seed(seed % (2 ** 31))
+        if name.endswith("@rt"):
+            # the caller solves once with a loose tolerance, then tightens the documented option on the SAME object and
+            # solves again: the judged call must honour the current value (judges read obj.tol)
+            obj_ = a_call[0]
+            tight = obj_.tol
+            obj_.tol = float(tight) * 1.0e4 if float(tight) > 0 else tight
+            fn(*[x.copy() if isinstance(x, np.ndarray) else x for x in a_call], **kw_call)
+            obj_.tol = tight
             np.random.seed(seed % (2 ** 31))
         if name.endswith(("@oc", "@o0")):
             # the caller keeps its option objects (a 0-d array holding a tolerance or a budget) and passes them again:
@@ -507,6 +528,7 @@ def stage(ctx, quick=False):
             jobs.append((nm + "@vb", n, ctx.seed * 1013 + 41 * n + len(jobs)))
             jobs.append((nm + "@we", n, ctx.seed * 1013 + 53 * n + len(jobs)))
             jobs.append((nm + "@rb", n, ctx.seed * 1013 + 59 * n + len(jobs)))
+            jobs.append((nm + "@rt", n, ctx.seed * 1013 + 61 * n + len(jobs)))
             jobs.append((nm + "@df", n, ctx.seed * 1013 + 43 * n + len(jobs)))
             for st_ in ("@pp", "@kw", "@oc", "@o0"):
                 jobs.append((nm + st_, n, ctx.seed * 1013 + 47 * n + len(jobs)))
